@@ -148,6 +148,8 @@ def scope_ast(toks, context, prelude):
         if t == 'ready': return Pr('y=~\\n', [V('y')])
         if t == 'callf': return Call('f', [])
         if t == 'callm': return MC(V('o'), 'm', [])
+        if t == 'methrx': return Pr('mx=~\\n', [MC(Obj(N(), [Fun('g', [], V('x'))]), 'g', [])])
+        if t == 'methwx': return MC(Obj(N(), [Fun('g', [], Asg('x', lit()))]), 'g', [])
         if t == 'begin':
             es = []
             while toks[pos[0]] != 'end':
@@ -187,6 +189,7 @@ CONTEXTS = [(c, p) for c in ('top', 'block', 'fun', 'meth') for p in (True, Fals
 
 
 def shadow_relevant(toks):
+    """a let inside a block meets another mention of the same name (shadowing, leaving scopes)"""
     depth = 0
     for i, x in enumerate(toks):
         if x == 'begin':
@@ -195,17 +198,41 @@ def shadow_relevant(toks):
             depth -= 1
         elif x.startswith('let') and depth > 0:
             v = x[3]
-            if any(y in ('let' + v, 'set' + v, 'read' + v) for j, y in enumerate(toks) if j != i):
+            if any(y in ('let' + v, 'set' + v, 'read' + v, 'methr' + v, 'methw' + v) for j, y in enumerate(toks) if j != i):
                 return True
+    return False
+
+
+def sibling_relevant(toks):
+    """two blocks one after the other at the same level, a let in the first and a mention of the same name in or after the second"""
+    depth = 0
+    blocks = []
+    cur = None
+    for i, x in enumerate(toks):
+        if x == 'begin':
+            depth += 1
+            if depth == 1:
+                cur = [i, None]
+        elif x == 'end':
+            if depth == 1:
+                cur[1] = i
+                blocks.append(cur)
+            depth -= 1
+    if len(blocks) < 2:
+        return False
+    b1, b2 = blocks[0], blocks[1]
+    for v in 'xy':
+        if 'let' + v in toks[b1[0]:b1[1]] and any(y in ('read' + v, 'set' + v, 'methr' + v, 'methw' + v) for y in toks[b2[0]:]):
+            return True
     return False
 
 
 def c12(tier):
     chk = Check('C12', tier)
-    maxlen = tier_sizes(tier, 4, 5)
-    chk.rule = ('TLC enumerates on the fly every statement sequence (MC_Scope: let/assign/read of x and y, call f, call o.m, begin/end to depth 2, if-true, if-false-else, '
+    maxlen = 5
+    chk.rule = ('TLC enumerates on the fly every statement sequence (MC_Scope: let/assign/read of x and y, call f, call o.m, inline objects whose method reads/assigns the free name x, begin/end to depth 2, if-true, if-false-else, '
                 'while-once) up to %d statements; each is placed at top level, in a top-level block, in a function body and in a method body, with and without global x, y '
-                '(all 8 placements up to length %d; beyond: thorough one placement round-robin, quick two placements for every length-4 sequence in which a block-local let meets another mention of the same name), written literals numbered; TLC runs the README semantics FMLSource on the AST (scope '
+                '(thorough: all 8 placements up to length %d, one placement round-robin beyond; quick: 8 placements to length 2, 2-4 at length 3, two placements for every length-4 sequence in which a block-local let meets another mention of the same name and for every length-5 sequence with two sibling blocks sharing a name), written literals numbered; TLC runs the README semantics FMLSource on the AST (scope '
                 'stack, LeaveRestores and CallIsolated checked in every state) and the real pipeline must print the same values and stop at the same point. '
                 'distinct_nontrivial = distinct programs judged inside the fragment.' % (maxlen, 4 if tier == 'thorough' else 3))
     exe = build('debug')
@@ -221,11 +248,15 @@ def c12(tier):
         nst = len([t for t in toks if t != 'end'])
         if tier == 'thorough':
             places = CONTEXTS if nst <= full_len else [CONTEXTS[si % len(CONTEXTS)]]
-        elif nst <= full_len:
+        elif nst <= 2:
             places = CONTEXTS
-        elif shadow_relevant(toks):
-            # quick tier, length 4: the sequences in which a block-local let meets another mention of the same name (shadowing, leaving scopes)
+        elif nst == 3:
+            # four of the eight placements when a block-local let meets another mention of its name, two otherwise
+            places = CONTEXTS[(si % 2)::2] if shadow_relevant(toks) else [CONTEXTS[si % 8], CONTEXTS[(si + 3) % 8]]
+        elif nst == 4 and shadow_relevant(toks):
             places = [('fun', True), ('block', True)] if si % 2 == 0 else [('meth', True), ('top', True)]
+        elif nst == 5 and sibling_relevant(toks):
+            places = [('fun', True), ('block', True)] if si % 2 == 0 else [('meth', True), ('block', False)]
         else:
             continue
         for (c, p) in places:
@@ -392,7 +423,8 @@ def dispatch_ast(d):
     t = V('t')
     c = {'m1': MC(t, 'm', [I(10)]), 'm0': MC(t, 'm', []), 'm2': MC(t, 'm', [I(1), I(2)]), 'plus': Op('+', t, I(1)), 'and': Op('&', t, B(True)),
          'index': Ix(t, I(0)), 'setindex': SIx(t, I(1), I(9)), 'get': MC(t, 'get', [I(1)]), 'set': MC(t, 'set', [I(0), I(4)]),
-         'zz': MC(t, 'zz', [I(1)]), 'field': GF(t, 'tag')}[call]
+         'zz': MC(t, 'zz', [I(1)]), 'field': GF(t, 'tag'),
+         'eqnull': Op('==', t, N()), 'ne5': Op('!=', t, I(5)), 'feq': MC(t, 'eq', [N()]), 'fneq': MC(t, 'neq', [I(5)])}[call]
     es += [Pr('r=~\\n', [c]), Pr('t=~\\n', [t]), Pr('after\\n')]
     return Top(es)
 
@@ -473,7 +505,7 @@ def value_ast(d):
 
 def c14(tier):
     chk = Check('C14', tier)
-    chk.rule = ('TLC enumerates (MC_Objects) parent chains of depth 0-3 ending in null/int/bool/array whose levels define one of 6 member sets (m, +, get, set, overriding) x 11 '
+    chk.rule = ('TLC enumerates (MC_Objects) parent chains of depth 0-3 ending in null/int/bool/array whose levels define one of 6 member sets (m, +, get, set, overriding) x 15 '
                 'calls on the outermost object (right/wrong argument counts, operators, a[i], a[i] <- v, get/set by name, unknown method, field access), and aliasing templates '
                 'storage kind^2 x target x mutation (+ value semantics of int/bool/null); FMLSource (lookup along the chain, arity check where found, built-ins at the end, shared heap '
                 'cells), run by TLC, prescribes each outcome; `this` under delegation accepted as holder or receiver. Quick: all chains of depth <= 1 + a stride of deeper ones, all '
